@@ -874,6 +874,20 @@ func init() {
 		if y := c08FastYielder(den, seed); y != nil {
 			interp.VerifSetStep(y, false)
 			defer interp.VerifSetStep(nil, false)
+			// a goroutine launched on a function value is also delayed at its start (before the run-id
+			// test and before the call), so that its parent runs on first
+			interp.VerifSetGoStart(func(_ *interp.Interpreter, stage int) {
+				if stage == 2 {
+					return
+				}
+				k := c08Counter.Add(1)
+				x := (k + seed) * 0x9E3779B97F4A7C15
+				x ^= x >> 29
+				for j := uint64(0); j < x%4; j++ {
+					runtime.Gosched()
+				}
+			})
+			defer interp.VerifSetGoStart(nil)
 		}
 		res := map[string]string{}
 		switch it.Data["kind"] {
@@ -965,7 +979,7 @@ func c01Program(idx uint64) string {
 }
 
 func checkC08(r *core.Run) {
-	r.Rule = "cell = (workload, goroutine count, GOMAXPROCS, yield pattern, repetition), run in a child built with the race detector (GORACE halt_on_error=0, reports read from the log after each cell). Workloads: thirteen schedule-independent script templates (pipeline, fan-out/fan-in pool, per-worker private channels in the same select statement, mutex-protected counter and map, producer/consumer with close and range, go statements whose arguments are reassigned right after, range over per-worker channels, ring of select nodes mixing send / receive / quit, closures sharing mutex-protected variables, sync/atomic counters with compare-and-swap loops, RWMutex readers and writers, sync.Once with a buffered-channel semaphore and panics recovered inside goroutines, a recursive goroutine tree with per-node result channels), compared with the gc binary of the same source; N host goroutines calling the same exported recursive function (locals, closures, defer, sort callback, select) with distinct arguments, compared with a native twin; Put/Get/CAS on a script-side mutex-protected map called from host goroutines, history checked for linearizability (porcupine, partitioned by key); N interpreters running different generated programs in parallel, each compared with its own sequential output. The step hook yields with probability 0, 1/64 or 1/4 per interpreted operation. Verdict: no race report, expected output, no error. non-trivial = the cell executed interpreted operations in more than one goroutine"
+	r.Rule = "cell = (workload, goroutine count, GOMAXPROCS, yield pattern, repetition), run in a child built with the race detector (GORACE halt_on_error=0, reports read from the log after each cell). Workloads: thirteen schedule-independent script templates (pipeline, fan-out/fan-in pool, per-worker private channels in the same select statement, mutex-protected counter and map, producer/consumer with close and range, go statements whose arguments are reassigned right after, range over per-worker channels, ring of select nodes mixing send / receive / quit, closures sharing mutex-protected variables, sync/atomic counters with compare-and-swap loops, RWMutex readers and writers, sync.Once with a buffered-channel semaphore and panics recovered inside goroutines, a recursive goroutine tree with per-node result channels), compared with the gc binary of the same source; N host goroutines calling the same exported recursive function (locals, closures, defer, sort callback, select) with distinct arguments, compared with a native twin; Put/Get/CAS on a script-side mutex-protected map called from host goroutines, history checked for linearizability (porcupine, partitioned by key); N interpreters running different generated programs in parallel, each compared with its own sequential output. The step hook yields with probability 0, 1/64 or 1/4 per interpreted operation; when it does, the goroutine-start hook also yields 0-3 times before a goroutine launched on a function value makes its call. Verdict: no race report, expected output, no error. non-trivial = the cell executed interpreted operations in more than one goroutine"
 	r.Assume = []string{"the scripts are data-race-free by construction, so a race report is attributed to the interpreter", "the race detector reports a given pair of stacks once per process: every cell runs in its own child"}
 	raceBin := os.Args[0] + ".race"
 	if _, err := os.Stat(raceBin); err != nil {
